@@ -6,13 +6,15 @@ ids="$@"; [ -z "$ids" ] && ids=$(ls seeded)
 for id in $ids; do
   P=${id%%-*}
   patch=/verif/seeded/$id/patch.diff
+  cw=$(python3 -c "import json;print(json.load(open('/verif/seeded/$id/meta.json')).get('check_with',''))")
+  [ -n "$cw" ] && P=$cw
   [ -f seeded/$id/patch_ported_to_repaired_keyring.diff ] && { patch=/verif/seeded/$id/patch_ported_to_repaired_keyring.diff; P=C12; }
   if ! git -C /repo apply --check $patch 2>/dev/null; then
     if git -C /repo apply --3way $patch >/dev/null 2>&1; then git -C /repo reset -q; else
       git -C /repo checkout -q -- . ; res="patch no longer applies to the repaired tree (the code it changes was rewritten by a later fix)"; 
       python3 - "$id" "$res" <<'PY'
 import json,sys
-p='/verif/seeded/%s/meta.json'%sys.argv[1]; m=json.load(open(p)); m['final_check_result']=sys.argv[2]; json.dump(m,open(p,'w'),indent=1)
+p='/verif/seeded/%s/meta.json'%sys.argv[1]; m=json.load(open(p)); m[__import__('os').environ.get('RESULT_KEY','final_check_result')]=sys.argv[2]; json.dump(m,open(p,'w'),indent=1)
 PY
       echo "$id: $res"; continue; fi
   else git -C /repo apply $patch; fi
@@ -25,7 +27,7 @@ PY
   else res="caught by ./check $P: VIOLATION with concrete input ($first)"; fi
   python3 - "$id" "$res" <<'PY'
 import json,sys
-p='/verif/seeded/%s/meta.json'%sys.argv[1]; m=json.load(open(p)); m['final_check_result']=sys.argv[2]; json.dump(m,open(p,'w'),indent=1)
+p='/verif/seeded/%s/meta.json'%sys.argv[1]; m=json.load(open(p)); m[__import__('os').environ.get('RESULT_KEY','final_check_result')]=sys.argv[2]; json.dump(m,open(p,'w'),indent=1)
 PY
   echo "$id: $res"
 done
